@@ -134,7 +134,8 @@ pub fn judge_case(c: &Case) -> Obs {
     };
     obs.show = Some(shown.clone());
     obs.key = hash_of(&(&p.text, &script));
-    let s = run_lace(&p, &script, &[], 8 * (model.dbg.executed + lines.len() as u64) + 64);
+    let fuel = 8 * (model.dbg.executed + lines.len() as u64) + 64;
+    let s = run_lace(&p, &script, &[], fuel);
     let Some(out) = outcome_of(&mut obs, "C13", &s, &shown) else { return obs };
     if out.stop != Stop::Returned {
         obs.set_fail("C13:session-ended-abnormally", format!("{:?}\n{shown}", out.stop));
@@ -206,6 +207,7 @@ pub fn judge_case(c: &Case) -> Obs {
             obs.set_fail("C13:unconfined-or-wrong-write", format!("{d}\n{shown}"));
         }
     }
+    mode_twin(&mut obs, "C13", &p, &script, &[], fuel, out, &shown);
     obs
 }
 
@@ -222,7 +224,7 @@ impl Prop for C13 {
         "Histories of 1-11 commands over {move <loc|reg> <value>, goto <loc>, break add/remove <loc>, print, registers, assembly, break list} after 0-29 executed instructions, with <loc> an absolute address in six radix spellings, label+-offset or ^offset (offsets over the whole signed 16-bit range, sums overflowing 16 bits), \
          targets drawn from {0, origin-1, origin, origin+1, 0x7FFF, 0x8000, 0xFDFE..0xFE01, 0xFFFE, 0xFFFF, program end} ∪ uniform, origins on both sides of 0x8000; plus an absolute-address sweep (also over a program at 0xFDF8 that straddles the end of user space and has `.break` directives beyond 0xFE00) (quick: a stride sample and all edges; thorough: all 65,536 addresses x move / break add / break remove / goto). \
          Oracle: RefDbg — target outside [origin, 0xFE00) => `OutOfBounds::Address` is reported and nothing changes; inside => exactly the named word / register / PC / breakpoint changes to exactly the given value; read-only commands change nothing: registers/PC/CC after every command, the breakpoint list and the full 65,536-word snapshot at the end. \
-         Non-trivial: the target is within 1 of a boundary, >= 0x8000, or produced by label / PC-offset arithmetic. Distinct = hash(source, script)."
+         One case in six is run once more in the normal (non-minimal) output mode - tables, colours, errors rendered in full: it must end the same way, after the same number of instructions, with the same final machine. Non-trivial: the target is within 1 of a boundary, >= 0x8000, or produced by label / PC-offset arithmetic. Distinct = hash(source, script)."
     }
     fn assumptions(&self) -> Vec<String> {
         vec![
